@@ -41,6 +41,7 @@ def check(ctx):
     ctx.attempt(_mro_calls)
     ctx.attempt(forward.check_all, module_suffixes=('containers.containers', 'plssdesc.plssdesc'))
     ctx.attempt(_setitem_kinds)
+    ctx.attempt(_unpack_group_recurses)
     ctx.attempt(common.first_element_speaks_for_all, [f for f in ctx.repo.funcs.values() if f.module.name.endswith('containers.containers')])
     ctx.attempt(common.no_dedup_on_insert, [f for f in ctx.repo.funcs.values() if f.module.name.endswith('containers.containers')])
     from .c12 import error_undef_tables      # filter_errors() relies on is_error / is_undef
@@ -439,3 +440,22 @@ def _setitem_kinds(ctx):
                           where=common.loc(fi, a))
     if n == 0:
         ctx.ok('SINK', '__setitem__ stores single verified elements only')
+
+
+def _unpack_group_recurses(ctx):
+    """group_by_nested() returns dicts of dicts (one level per attribute).
+    unpack_group() must therefore tell a nested dict from a list of elements
+    and go into it; handing the values to a generic flattener iterates a
+    nested dict's KEYS (strings / ints) instead of its elements."""
+    fi = ctx.repo.func('_TRSTractList.unpack_group')
+    tells = any(isinstance(c, ast.Call) and dotted(c.func) == 'isinstance' and len(c.args) == 2 and 'dict' in norm(c.args[1])
+                for c in ast.walk(fi.node))
+    recurses = any(isinstance(c, ast.Call) and (dotted(c.func) or '').split('.')[-1] in
+                   {fi.node.name} | {f.node.name for f in ctx.repo.funcs.values() if f.outer is fi} for c in ast.walk(fi.node))
+    generic = [c for c in walk_local(fi.node) if isinstance(c, ast.Call) and (dotted(c.func) or '').split('.')[-1] in
+               ('_from_multiple', 'from_multiple', 'flatten') and any('values()' in norm(a) for a in c.args)]
+    ctx.tri(tells and recurses, bool(generic) and not tells, 'SINK', 'unpack_group goes into nested group dicts',
+            detail_bad=f"`{norm(generic[0])[:70] if generic else ''}` hands the dict's values to a generic flattener: for the dict of dicts that "
+                       f"group_by_nested() returns with two or more attributes, the inner dicts are iterated by KEY - a TRSList is "
+                       f"rebuilt from the key strings (the original objects and their duplicates are gone), a TractList raises "
+                       f"TypeError", key="SINK|unpack_group|nested", where=common.loc(fi, generic[0]) if generic else None)
